@@ -127,6 +127,16 @@ CHECKS = {
   note=TRUST + 'Flag assignments are enumerated, operands are symbolic. Outside: BODY/TEXT/HEADER/address/subject and sent-date keys '
        '(email package), two top-level keys of the same family (told apart by hash(SearchKey)).',
   technique='symbolic execution of the real search code with z3 against RFC semantics as a z3 term'),
+ 'C16': dict(
+  text='Assume/guarantee decomposition on the real code: (1) dict MailboxData.update_selected(wait_on) started on a real asyncio loop from '
+       'change logs produced by <= 2 (quick) / 3 (thorough) mutations with the idler\'s consumed position a symbolic integer 0..highest (or '
+       'never synced): behind => it completes without a further signal, proved per path by z3; (2) each mutator (append, update, delete, '
+       'copy-in, move-out, claim_recent) sets a listener registered with or_event; (3) the diff after wake-up is C01/C02; (4) the real '
+       'IMAPConnection.idle on a scripted transport with a symbolic line: DONE (any case, CR optional) => tagged OK, anything else => BAD, '
+       'and the next command is served.',
+  note=TRUST + 'The asyncio scheduler (ready-queue fairness, wait_for, shield) is trusted. Outside: maildir poll timer, back-pressure '
+       'while writing, lines announcing a {n+} literal.',
+  technique='symbolic execution of the real code on a real asyncio loop with z3 (symbolic change-log position, symbolic DONE line)'),
  'C17': dict(
   text='Bounded model checking of histories (<= 3 quick / 4 thorough operations: SELECT, EXAMINE, CLOSE, APPEND, APPEND with a '
        '\\Recent flag, APPEND elsewhere, COPY into the mailbox, STORE +/-/= \\Recent, NOOP) by 2-3 sessions on the real session '
